@@ -44,6 +44,10 @@ type spamSpec struct {
 	Unban      int        `json:"unban"`
 	Exceptions []excSpec  `json:"exceptions,omitempty"`
 	Rules      []ruleSpec `json:"rules,omitempty"`
+
+	// diagnostic hypothesis of Part B.foldlen (foldlen.go), never the reference:
+	// exceptions are matched with the size checks / the cut taken before lower-casing
+	cutFirst bool
 }
 
 // ---------------------------------------------------------------------------
@@ -51,18 +55,22 @@ type spamSpec struct {
 // pipeline/antispam/README.md (+ pipeline/doif/README.md for the four field
 // operations used). Plain library calls, no shortcuts.
 
-func asciiLower(b []byte) []byte { return bytes.ToLower(b) } // generators use ASCII patterns only
+// "all values and the checking contents are converted to lowercase": the
+// library's Unicode lower-casing on both sides (Part B.fold has the non-ASCII
+// letters; its alphabet keeps to letters with a 1:1 case pair of equal length)
+func (r *mrRule) match(data []byte) bool { return r.matchWith(data, bytes.ToLower) }
 
-func (r *mrRule) match(data []byte) bool {
+// matchWith: the lower-casing as a parameter (B.fold bookkeeping uses a second one)
+func (r *mrRule) matchWith(data []byte, lower func([]byte) []byte) bool {
 	d := data
 	if r.CI {
-		d = asciiLower(d)
+		d = lower(d)
 	}
 	res := false
 	for _, v := range r.Values {
 		vb := []byte(v)
 		if r.CI {
-			vb = asciiLower(vb)
+			vb = lower(vb)
 		}
 		switch r.Mode {
 		case "prefix":
@@ -79,7 +87,9 @@ func (r *mrRule) match(data []byte) bool {
 	return res
 }
 
-func (e *excSpec) match(name string, event []byte) bool {
+func (e *excSpec) match(name string, event []byte) bool { return e.matchHow(name, event, false) }
+
+func (e *excSpec) matchHow(name string, event []byte, cutFirst bool) bool {
 	data := event
 	if e.CheckSourceName {
 		data = []byte(name)
@@ -87,16 +97,22 @@ func (e *excSpec) match(name string, event []byte) bool {
 	if len(e.Rules) == 0 {
 		return false
 	}
+	rm := func(r *mrRule) bool {
+		if cutFirst {
+			return r.matchCutFirst(data)
+		}
+		return r.match(data)
+	}
 	if e.Cond == "or" {
 		for i := range e.Rules {
-			if e.Rules[i].match(data) {
+			if rm(&e.Rules[i]) {
 				return true
 			}
 		}
 		return false
 	}
 	for i := range e.Rules {
-		if !e.Rules[i].match(data) {
+		if !rm(&e.Rules[i]) {
 			return false
 		}
 	}
@@ -214,7 +230,7 @@ type classified struct {
 func (s *spamSpec) classify(name string, event []byte, meta map[string]string) classified {
 	excMatch := false
 	for i := range s.Exceptions {
-		if s.Exceptions[i].match(name, event) {
+		if s.Exceptions[i].matchHow(name, event, s.cutFirst) {
 			excMatch = true
 			break
 		}
